@@ -11,9 +11,13 @@ package templater
 //@ func Replace
 //@   trusted
 //@   modifies github.com/go-task/task/v3/internal/templater.*
+// The extra variables of one expansion (for-loop ITEM/KEY, EXIT_CODE) are merged into a private clone of the
+// cached variable map, never into the cache itself: later expansions must not see them.
 //@ func ReplaceWithExtra
-//@   trusted
-//@   modifies github.com/go-task/task/v3/internal/templater.*
+//@   modifies heap
+//@   preserves $RUNDATA
+//@   site maps.Clone#1 requires arg0 == cache.cacheMap                                                         [C02,C11]
+//@   site maps.Copy#1 requires arg0 != cache.cacheMap                                                          [C02,C11]
 //@ func ReplaceVar
 //@   trusted
 //@   modifies github.com/go-task/task/v3/internal/templater.*
